@@ -22,6 +22,8 @@ func checkC05(c *Ctx, r *Report) {
 	checkFormatDecodeFold(c, r)
 	checkVersionDecodeFold(c, r)
 	checkBothCopies(c, r)
+	checkQRInfoReadPositions(c, r)
+	checkQRFunctionPattern(c, r) // which modules carry codewords: a misplaced function-pattern rectangle feeds wrong bits into the blocks
 	checkRSFullParity(c, r)
 	r.Note("not decided: Reed-Solomon correction itself (C04 decides its configuration), de-interleaving of codewords into blocks (loop-carried index arithmetic in DataBlock_GetDataBlocks / DataBlocks_getDataBlocks)")
 }
@@ -462,4 +464,147 @@ func copiesFrom(p *packages.Package, s ast.Stmt, src types.Object) bool {
 		return true
 	})
 	return found
+}
+
+// T-INFOREAD: the module coordinates the decoder reads format and version information from
+func checkQRInfoReadPositions(c *Ctx, r *Report) {
+	r.Rule("T-INFOREAD", "BitMatrixParser.ReadFormatInformation reads, most significant bit first, copy 1 from (0..5,8),(7,8),(8,8),(8,7),(8,5..0) and copy 2 from (8,d-1..d-7),(d-8..d-1,8) - 15 modules each, the mirror image of the encoder's placement (T-FMTPOS); ReadVersion reads copy 1 from columns d-9..d-11 of rows 5..0 and copy 2 from rows d-9..d-11 of columns 5..0 - 18 modules each: the loops are unrolled for dimensions 21, 45 and 177", 4)
+	type coord struct{ i, j int64 }
+	fold := func(fn string, dim int64) (map[string][]coord, []string, string) {
+		fd, p := c.funcDeclOf("qrcode/decoder", "BitMatrixParser."+fn)
+		if fd == nil {
+			return nil, nil, "!"
+		}
+		seqs := map[string][]coord{}
+		var order []string
+		h := &rpf{unroll: 64}
+		h.selHook = func(rr *rpf, sel *ast.SelectorExpr) (*Val, bool) {
+			switch sel.Sel.Name {
+			case "parsedFormatInfo", "parsedVersion":
+				return &Val{K: VNil}, true
+			}
+			return nil, false
+		}
+		h.stHook = func(rr *rpf, lhs ast.Expr, v *Val) bool { return true }
+		h.callHook = func(rr *rpf, call *ast.CallExpr, callee types.Object) (*Val, bool) {
+			fnc, ok := callee.(*types.Func)
+			if !ok {
+				return nil, false
+			}
+			switch fnc.Name() {
+			case "copyBit":
+				i, j, acc := rr.expr(call.Args[0]), rr.expr(call.Args[1]), rr.expr(call.Args[2])
+				if i.K != VInt || j.K != VInt || acc.K != VInt {
+					rpfFail("copyBit with non-constant arguments")
+				}
+				name := exprString(call.Args[2])
+				if _, seen := seqs[name]; !seen {
+					order = append(order, name)
+				}
+				seqs[name] = append(seqs[name], coord{i.I, j.I})
+				return vint(acc.I << 1), true
+			case "GetHeight", "GetWidth":
+				return vint(dim), true
+			case "FormatInformation_DecodeFormatInformation":
+				return &Val{K: VNil}, true
+			case "Version_GetVersionForNumber":
+				return nil, false
+			}
+			return errCtorHook(rr, call, callee)
+		}
+		h.multiHook = func(call *ast.CallExpr, callee types.Object) ([]*Val, bool) {
+			if fnc, ok := callee.(*types.Func); ok && (fnc.Name() == "Version_decodeVersionInformation" || fnc.Name() == "Version_GetVersionForNumber") {
+				// "no match": forces the second copy to be read as well
+				return []*Val{{K: VNil}, vstr("error")}, true
+			}
+			return nil, false
+		}
+		h.env = map[types.Object]*Val{}
+		if ro := recvObj(p, fd); ro != nil {
+			h.env[ro] = &Val{K: VStruct, Fields: map[string]*Val{}, Local: true}
+		}
+		_, err := c.rpfCall(fd, p, nil, h)
+		if err != nil {
+			return seqs, order, "?" + err.Error()
+		}
+		return seqs, order, ""
+	}
+	same := func(a, b []coord) bool {
+		if len(a) != len(b) {
+			return false
+		}
+		for i := range a {
+			if a[i] != b[i] {
+				return false
+			}
+		}
+		return true
+	}
+	for _, dim := range []int64{21, 45, 177} {
+		key := fmt.Sprintf("qrcode/decoder.BitMatrixParser.ReadFormatInformation(d=%d)", dim)
+		seqs, order, errS := fold("ReadFormatInformation", dim)
+		if errS == "!" {
+			r.AnchorLost("T-INFOREAD", key, "method not found")
+			continue
+		}
+		r.Analysed(key)
+		var w1, w2 []coord
+		for i := int64(0); i <= 5; i++ {
+			w1 = append(w1, coord{i, 8})
+		}
+		w1 = append(w1, coord{7, 8}, coord{8, 8}, coord{8, 7})
+		for j := int64(5); j >= 0; j-- {
+			w1 = append(w1, coord{8, j})
+		}
+		for j := dim - 1; j >= dim-7; j-- {
+			w2 = append(w2, coord{8, j})
+		}
+		for i := dim - 8; i < dim; i++ {
+			w2 = append(w2, coord{i, 8})
+		}
+		switch {
+		case errS != "":
+			r.Undecided("T-INFOREAD", key, "", errS[1:])
+		case len(order) != 2:
+			r.Fail("T-INFOREAD", key, "", "violation", fmt.Sprintf("%d accumulators filled by copyBit, expected the two copies", len(order)))
+		case !same(seqs[order[0]], w1):
+			r.Fail("T-INFOREAD", key, "", "violation", fmt.Sprintf("copy 1 is read from %v, expected %v", seqs[order[0]], w1))
+		case !same(seqs[order[1]], w2):
+			r.Fail("T-INFOREAD", key, "", "violation", fmt.Sprintf("copy 2 is read from %v, expected %v (7 modules up the right side of the bottom-left finder, 8 along the bottom of the top-right one)", seqs[order[1]], w2))
+		default:
+			r.Pass("T-INFOREAD", key, "", "")
+		}
+	}
+	for _, dim := range []int64{45, 177} {
+		key := fmt.Sprintf("qrcode/decoder.BitMatrixParser.ReadVersion(d=%d)", dim)
+		seqs, order, errS := fold("ReadVersion", dim)
+		if errS == "!" {
+			r.AnchorLost("T-INFOREAD", key, "method not found")
+			continue
+		}
+		r.Analysed(key)
+		var w1, w2 []coord
+		for j := int64(5); j >= 0; j-- {
+			for i := dim - 9; i >= dim-11; i-- {
+				w1 = append(w1, coord{i, j})
+			}
+		}
+		for i := int64(5); i >= 0; i-- {
+			for j := dim - 9; j >= dim-11; j-- {
+				w2 = append(w2, coord{i, j})
+			}
+		}
+		var got []coord
+		for _, n := range order {
+			got = append(got, seqs[n]...)
+		}
+		switch {
+		case errS != "":
+			r.Undecided("T-INFOREAD", key, "", errS[1:])
+		case !same(got, append(append([]coord{}, w1...), w2...)):
+			r.Fail("T-INFOREAD", key, "", "violation", fmt.Sprintf("version information is read from %v, expected the top-right block %v then the bottom-left block %v", got, w1, w2))
+		default:
+			r.Pass("T-INFOREAD", key, "", "")
+		}
+	}
 }
